@@ -226,6 +226,19 @@ func merge[EntityT entity.Interface](def Definition, wrapper func(e *Entity) Ent
 		return entity.NewMergeError(err, id)
 	}
 
+	// Before publishing it, make sure that the merged history is sound: both sides can be fine on
+	// their own and still not fit together (histories that share no root, or the same operations
+	// stored in different commits), in which case the remote is refused and nothing changes locally.
+	mergedEntity, err := readCommit[EntityT](def, wrapper, repo, resolvers, commitHash)
+	if err != nil {
+		return entity.NewMergeInvalidStatus(id,
+			errors.Wrapf(err, "merging the remote %s gives an unreadable history", def.Typename).Error())
+	}
+	if err := mergedEntity.Validate(); err != nil {
+		return entity.NewMergeInvalidStatus(id,
+			errors.Wrapf(err, "merging the remote %s gives an invalid history", def.Typename).Error())
+	}
+
 	// finally update the ref
 	err = repo.UpdateRef(localRef, commitHash)
 	if err != nil {
@@ -234,11 +247,6 @@ func merge[EntityT entity.Interface](def Definition, wrapper func(e *Entity) Ent
 
 	// hand back the merged entity: the caller (cache included) keeps using what we return here,
 	// it has to hold the operations of both branches and the merge commit as last commit.
-	mergedEntity, err := read[EntityT](def, wrapper, repo, resolvers, localRef)
-	if err != nil {
-		return entity.NewMergeError(err, id)
-	}
-
 	return entity.NewMergeUpdatedStatus(id, mergedEntity)
 }
 
